@@ -1083,23 +1083,34 @@ func (g *G) matrix() *yaml.Node {
 				for i, c := 0, g.intn("nadj", 1, 3); i < c; i++ {
 					au := set("with")
 					var ap []ent
-					ap = append(ap, ent{key: "with", gen: func() *yaml.Node {
-						if len(dims) == 1 && dims[0] == "" && g.coin("withscalar", 4) != true {
-							g.feat("adj-with-scalar")
-							return g.withScalar()
-						}
-						var wp []ent
-						for _, d := range dims {
-							if d == "" && len(dims) == 1 {
-								continue
+					// an adjustment may leave `with` out altogether (it then names no dimension)
+					noWith := g.C.EmptyMatrix && g.coin("nowith", 8)
+					if noWith {
+						g.feat("adjustment-without-with")
+					}
+					if !noWith {
+						ap = append(ap, ent{key: "with", gen: func() *yaml.Node {
+							if g.C.EmptyMatrix && g.coin("withnull", 12) {
+								g.feat("adjustment-with-null")
+								return Plain("null")
 							}
-							wp = append(wp, ent{key: d, gen: func() *yaml.Node { return g.withScalar() }})
-						}
-						if len(wp) == 0 && !(noDims != 0 && g.coin("withempty", 2)) {
-							wp = append(wp, ent{key: "os", gen: func() *yaml.Node { return g.withScalar() }})
-						}
-						return g.mapping("", wp)
-					}})
+							if len(dims) == 1 && dims[0] == "" && g.coin("withscalar", 4) != true {
+								g.feat("adj-with-scalar")
+								return g.withScalar()
+							}
+							var wp []ent
+							for _, d := range dims {
+								if d == "" && len(dims) == 1 {
+									continue
+								}
+								wp = append(wp, ent{key: d, gen: func() *yaml.Node { return g.withScalar() }})
+							}
+							if len(wp) == 0 && !(noDims != 0 && g.coin("withempty", 2)) {
+								wp = append(wp, ent{key: "os", gen: func() *yaml.Node { return g.withScalar() }})
+							}
+							return g.mapping("", wp)
+						}})
+					}
 					switch g.intn("skip", 0, 4) {
 					case 0:
 						au["skip"] = true
